@@ -123,7 +123,8 @@ class HTMLRenderer(BaseRenderer):
     def block_code(self, code: str, info: Optional[str] = None) -> str:
         html = "<pre><code"
         if info is not None:
-            info = safe_entity(info.strip())
+            # a character reference may decode to white space
+            info = safe_entity(info.strip()).strip()
         if info:
             lang = info.split(None, 1)[0]
             html += ' class="language-' + lang + '"'
